@@ -23,9 +23,22 @@ for line in open(os.path.join(V, 'known_findings.txt')):
         fnd.append(f"| {p.split('=')[1]} | `{k.split('=', 1)[1]}` | {rest} |")
 findings = ('**Repaired (one `fix:` commit each in /repo, baseline suite unchanged):**\n\n| property | commit | what failed |\n|---|---|---|\n' + '\n'.join(fix) +
             '\n\n**Recorded known findings (printed as `KNOWN-FINDING`, exit 0):**\n\n| property | key | what fails |\n|---|---|---|\n' + '\n'.join(fnd))
+man = json.load(open(os.path.join(V, 'MANIFEST.json')))
+st = ['| id | theorems audited | correspondence cases (quick) | search evaluations (quick) | wall s | gap / partial clause (from MANIFEST level_note) |', '|---|---|---|---|---|---|']
+for c in man['checks']:
+    pid = c['property_id']
+    try:
+        e = json.load(open(os.path.join(V, 'evidence', pid + '.json')))
+        cov = e['coverage']
+        note = c['level_note'].split('Float vs ℝ rounding not covered. ')[-1]
+        st.append(f"| {pid} | {cov['discharged']}/{cov['obligations']} | {cov.get('correspondence_cases', '')} | {cov.get('search_evaluations', '')} | {e['wall_s']} | {note} |")
+    except Exception as ex:
+        st.append(f'| {pid} | (no evidence yet: {ex}) | | | | |')
+status = '\n'.join(st)
 p = os.path.join(V, 'DESIGN.md')
 doc = open(p).read()
 doc = block('FINDINGS', findings, doc)
 doc = block('SEEDED', seeded, doc)
+doc = block('STATUS', status, doc)
 open(p, 'w').write(doc)
 print('fixed', len(fix), 'findings', len(fnd), 'seeded', len(rows) - 2)
